@@ -2,7 +2,7 @@
 (* Model-checking harness: explores Ciw.tla exhaustively for a family of    *)
 (* configurations (module MCFamily, generated from scenario JSON) and       *)
 (* evaluates the property formulas of CiwProps on every state / transition. *)
-EXTENDS Ciw, MCFamily
+EXTENDS Ciw, MCFamily, Json, TLCExt
 
 P == INSTANCE CiwProps
 
@@ -28,6 +28,12 @@ Bound == S.created <= MaxCreated
 \* observation fields do not influence the future: hide them from the fingerprint
 View == [S EXCEPT !.steps = <<>>, !.recs = <<>>,
                   !.ev = [kind |-> "", node |-> 0, cls |-> 0, date |-> 0]]
+
+\* behaviour export for the spec -> code replay (-simulate): when a random walk reaches ExportDepth its whole
+\* behaviour (TLCExt!Trace) is printed as one JSON line: per state the event label and the micro-steps / draws
+Proj(st) == [idx |-> st.cfg.idx, ev |-> st.ev, steps |-> st.steps, err |-> st.err]
+Export == TLCGet("level") = ExportDepth =>
+             PrintT(<<"BEH", ToJson([j \in DOMAIN Trace |-> Proj(Trace[j].S)])>>)
 
 NoCrash == S.err = "" \/ SubSeq(S.err, 1, 10) = "unmodelled"
 
